@@ -490,3 +490,79 @@ pub fn gen_fragment(rng: &mut Rng, cfg: &GenCfg) -> GTree {
     }
     GTree::new(GValue::Document, kids)
 }
+
+
+/// A caller-supplied normalizer (the `*_with_normalizer` entry points) that turns the fullwidth
+/// forms of the markup characters into the ASCII ones, as NFKC / NFKD do: U+FF1C '<', U+FF06 '&',
+/// U+FF02 '"', U+FF1E '>', U+FF07 '\''.
+pub struct FullwidthNormalizer;
+
+pub fn fullwidth_map(c: char) -> char {
+    match c {
+        '\u{ff1c}' => '<',
+        '\u{ff06}' => '&',
+        '\u{ff02}' => '"',
+        '\u{ff1e}' => '>',
+        '\u{ff07}' => '\'',
+        c => c,
+    }
+}
+
+impl xot::output::Normalizer for FullwidthNormalizer {
+    fn normalize<'a>(&self, content: std::borrow::Cow<'a, str>) -> std::borrow::Cow<'a, str> {
+        if content.chars().any(|c| fullwidth_map(c) != c) {
+            std::borrow::Cow::Owned(content.chars().map(fullwidth_map).collect())
+        } else {
+            content
+        }
+    }
+}
+
+/// The tree with the normalizer applied to what the serialisers normalize: character data and
+/// attribute values.  Serialising `t` WITH the normalizer must give the serialisation of this tree
+/// without one (normalise first, then escape: seed C19f).
+pub fn map_tree_fullwidth(t: &GTree) -> GTree {
+    let m = |s: &String| s.chars().map(fullwidth_map).collect::<String>();
+    let v = match &t.v {
+        GValue::Text(s) => GValue::Text(m(s)),
+        GValue::Attribute(n, s) => GValue::Attribute(*n, m(s)),
+        v => v.clone(),
+    };
+    GTree::new(v, t.kids.iter().map(map_tree_fullwidth).collect())
+}
+
+pub fn has_fullwidth(t: &GTree) -> bool {
+    (match &t.v {
+        GValue::Text(s) | GValue::Attribute(_, s) => s.chars().any(|c| fullwidth_map(c) != c),
+        _ => false,
+    }) || t.kids.iter().any(has_fullwidth)
+}
+
+/// Replace a few ASCII markup characters of the character data / attribute values by their
+/// fullwidth forms, so that a normalizer has something to do.
+pub fn sprinkle_fullwidth(t: &GTree, rng: &mut crate::common::Rng) -> GTree {
+    let mut m = |s: &String| {
+        s.chars()
+            .map(|c| {
+                if !rng.chance(1, 2) {
+                    return c;
+                }
+                match c {
+                    '<' => '\u{ff1c}',
+                    '&' => '\u{ff06}',
+                    '"' => '\u{ff02}',
+                    '>' => '\u{ff1e}',
+                    '\'' => '\u{ff07}',
+                    c => c,
+                }
+            })
+            .collect::<String>()
+    };
+    let v = match &t.v {
+        GValue::Text(s) => GValue::Text(m(s)),
+        GValue::Attribute(n, s) => GValue::Attribute(*n, m(s)),
+        v => v.clone(),
+    };
+    let kids = t.kids.iter().map(|k| sprinkle_fullwidth(k, rng)).collect();
+    GTree::new(v, kids)
+}
